@@ -1,22 +1,25 @@
 /-
   C15 — printing a parsed theory / specification / user guide re-parses to the same tree.
-  Status: the printers (Model/Print) and the parser (Model/FolParse: the PEG of grammar.pest with
-  pest's rules, the tree builders, both Pratt tables of pest.rs) are modelled and tied to the Rust
-  code by exact correspondence (suites `print`, `fol_parse`).
-  Proved here (pair level): `pratt_inverts_formula_parenthesisation` and
-  `pratt_inverts_integer_term_parenthesisation` - pest's Pratt algorithm, run on the pair sequence
-  of a printed formula / integer term (an operand that the printer parenthesises is one primary
-  pair), returns the formula / term, for every nesting: the five connectives with the mandatory
-  parentheses of the mixed level `<->`, `->`, `<-`, left-nested `and`/`or` chains, negation and
-  quantifier prefixes in any operand position; plus the printer facts behind the three repaired
-  defects. Not proved: the character level for the target language (that the printed tokens are
-  lexed back: sort suffixes, keyword boundaries, variable lists); it is covered by the
-  `fol_parse` correspondence and the round-trip exploration on the real parser.
-  Three genuine defects were repaired (`fix:` db0baa0 quantifier over a variable-initial atomic
-  formula, 3af4e16 keyword word boundary, d0885ee comparison after `<-`).
+  Status: FULL for the model. The printers (Model/Print) and the parser (Model/FolParse: the PEG
+  of grammar.pest with pest's rules, the tree builders, both Pratt tables of pest.rs) are modelled
+  and tied to the Rust code by exact correspondence (suites `print`, `fol_parse`).
+  Proved here, character level, no hypothesis on the text:
+    `accepted_theory_roundtrip`, `accepted_specification_roundtrip`, `accepted_user_guide_roundtrip`:
+    for every text the parser accepts, the printed tree is accepted and parses to the identical
+    tree (and prints to itself: `*_print_parse_print`).
+  They combine `parse*_print*` (the parser inverts the printer on every *safe* tree: names of the
+  grammar's lexical shape, a guard in every comparison, a variable in every quantifier, no atomic
+  formula starting with the name `not`) with `parse*_safe` (every tree in the parser's image is
+  safe). Pair level: `pratt_inverts_formula_parenthesisation`,
+  `pratt_inverts_integer_term_parenthesisation`.
+  Four genuine defects were repaired (`fix:` db0baa0 quantifier over a variable-initial atomic
+  formula, 3af4e16 keyword word boundary, d0885ee comparison after `<-`, 2ca6488 `not$i` at the
+  start of a comparison - the last one found by weakening the hypothesis of the round-trip theorem
+  to the parser's image and running the real parser at the point the proof excluded).
 -/
 import AnthemModel.Model.Print
 import AnthemModel.Proofs.FolPrattInv
+import AnthemModel.Proofs.FolImage3
 namespace Anthem.C15
 
 /-- text of a quantification prefix -/
@@ -88,5 +91,101 @@ theorem fflat_paren_conditions (c : Conn) (l r : Formula) :
     Fol.parenRight c l r = ((decide (c = .rimp) && r.beginsWithComparison) || r.mandatory ||
       decide ((Formula.bin c l r).prec < r.prec) ||
       (decide ((Formula.bin c l r).prec = r.prec) && !(Formula.bin c l r).rightAssoc)) := ⟨rfl, rfl⟩
+
+/-! ## the character level -/
+
+/-- **C15, theories.** For every text the parser accepts as a theory, the printed tree is accepted
+    and parses to the identical tree. -/
+theorem accepted_theory_roundtrip {text : String} {t : Theory} (h : Fol.parseTheory text = some t) :
+    Fol.parseTheory (printTheory t) = some t := Fol.accepted_theory_roundtrip h
+
+/-- **C15, specifications** (annotated formulas with role, direction and name). -/
+theorem accepted_specification_roundtrip {text : String} {s : Specification}
+    (h : Fol.parseSpecification text = some s) : Fol.parseSpecification (printSpecification s) = some s :=
+  Fol.accepted_specification_roundtrip h
+
+/-- **C15, user guides** (input / output predicates, placeholder declarations of each sort,
+    annotated formulas). -/
+theorem accepted_user_guide_roundtrip {text : String} {u : UserGuide} (h : Fol.parseUserGuide text = some u) :
+    Fol.parseUserGuide (printUserGuide u) = some u := Fol.accepted_user_guide_roundtrip h
+
+/-- … and printing the re-parsed tree gives the same text again. -/
+theorem theory_print_parse_print {text : String} {t : Theory} (h : Fol.parseTheory text = some t) :
+    (Fol.parseTheory (printTheory t)).map printTheory = some (printTheory t) := by
+  rw [accepted_theory_roundtrip h]; rfl
+
+theorem specification_print_parse_print {text : String} {s : Specification} (h : Fol.parseSpecification text = some s) :
+    (Fol.parseSpecification (printSpecification s)).map printSpecification = some (printSpecification s) := by
+  rw [accepted_specification_roundtrip h]; rfl
+
+theorem user_guide_print_parse_print {text : String} {u : UserGuide} (h : Fol.parseUserGuide text = some u) :
+    (Fol.parseUserGuide (printUserGuide u)).map printUserGuide = some (printUserGuide u) := by
+  rw [accepted_user_guide_roundtrip h]; rfl
+
+/-- The two halves: the parser inverts the printer on every safe theory … -/
+theorem theory_roundtrip (t : Theory) (ht : Fol.Theory.Safe t) : Fol.parseTheory (printTheory t) = some t :=
+  Fol.parseTheory_printTheory t ht
+
+/-- … and every theory in the image of the parser is safe. -/
+theorem accepted_theory_safe {text : String} {t : Theory} (h : Fol.parseTheory text = some t) : Fol.Theory.Safe t :=
+  Fol.parseTheory_safe h
+
+/-- everything the translate and simplify commands print: their output is the printed form of a
+    theory whose names come from a parsed program (C14: lexical shape) and from the translation's
+    own variables; for every such safe theory the text is accepted and parses to the same tree -/
+theorem printed_safe_theory_is_accepted (t : Theory) (ht : Fol.Theory.Safe t) :
+    ∃ t', Fol.parseTheory (printTheory t) = some t' ∧ t' = t := ⟨t, theory_roundtrip t ht, rfl⟩
+
+/-- Non-vacuity: a theory with a quantifier over a variable-initial comparison, nested prefixes,
+    a chained comparison, both associativities, sort annotations and a `<-` in front of a
+    comparison is safe, so it is the parse of its own printed text and `accepted_theory_roundtrip`
+    applies to that text. -/
+def sample : Theory :=
+  [ .quant .all [⟨"X", .general⟩, ⟨"N", .integer⟩] (.atomic (.cmp (.var "X") [⟨.eq, .int (.num 3)⟩, ⟨.lt, .int (.var "N")⟩])),
+    .not (.not (.quant .ex [⟨"S", .symbol⟩] (.atomic (.atom ⟨"p", [.symb (.var "S"), .symb (.sym "a")]⟩)))),
+    .bin .imp (.bin .imp (.atomic (.atom ⟨"q", []⟩)) (.atomic .tru)) (.bin .rimp (.atomic (.atom ⟨"forall", []⟩))
+      (.atomic (.cmp (.int (.bin .add (.fc "not") (.num (-1)))) [⟨.ge, .inf⟩]))) ]
+
+theorem sample_safe : Fol.Theory.Safe sample := by
+  have sp : Asp.SymName "p".toList := Or.inl ⟨'p', [], rfl, by decide, by simp⟩
+  have sq : Asp.SymName "q".toList := Or.inl ⟨'q', [], rfl, by decide, by simp⟩
+  have sa : Asp.SymName "a".toList := Or.inl ⟨'a', [], rfl, by decide, by simp⟩
+  have sf : Asp.SymName "forall".toList := Or.inl ⟨'f', ['o', 'r', 'a', 'l', 'l'], rfl, by decide, by decide⟩
+  have sn : Asp.SymName "not".toList := Or.inl ⟨'n', ['o', 't'], rfl, by decide, by decide⟩
+  have vx : Fol.UVName "X".toList := Or.inl ⟨'X', [], rfl, by decide, by simp⟩
+  have vn : Fol.UVName "N".toList := Or.inl ⟨'N', [], rfl, by decide, by simp⟩
+  have vs : Fol.UVName "S".toList := Or.inl ⟨'S', [], rfl, by decide, by simp⟩
+  intro F hF
+  simp only [sample, List.mem_cons, List.mem_nil_iff, or_false] at hF
+  rcases hF with rfl | rfl | rfl
+  · refine ⟨by simp, ?_, ⟨⟨vx, by simp, ?_⟩, trivial⟩⟩
+    · intro v hv
+      simp only [List.mem_cons, List.mem_nil_iff, or_false] at hv
+      rcases hv with rfl | rfl
+      · exact vx
+      · exact vn
+    · intro g hg
+      simp only [List.mem_cons, List.mem_nil_iff, or_false] at hg
+      rcases hg with rfl | rfl
+      · trivial
+      · exact vn
+  · refine ⟨by simp, ?_, ⟨⟨sp, ?_⟩, (by show "p".toList ≠ ['n', 'o', 't']; decide)⟩⟩
+    · intro v hv
+      simp only [List.mem_cons, List.mem_nil_iff, or_false] at hv
+      subst hv; exact vs
+    · intro t ht
+      simp only [List.mem_cons, List.mem_nil_iff, or_false] at ht
+      rcases ht with rfl | rfl
+      · exact vs
+      · exact sa
+  · refine ⟨⟨⟨⟨sq, fun t ht => by cases ht⟩, (by show "q".toList ≠ ['n', 'o', 't']; decide)⟩, ⟨trivial, trivial⟩⟩,
+      ⟨⟨sf, fun t ht => by cases ht⟩, (by show "forall".toList ≠ ['n', 'o', 't']; decide)⟩, ?_⟩
+    refine ⟨⟨⟨sn, trivial⟩, by simp, ?_⟩, trivial⟩
+    intro g hg
+    simp only [List.mem_cons, List.mem_nil_iff, or_false] at hg
+    subst hg; trivial
+
+example : Fol.parseTheory (printTheory sample) = some sample := theory_roundtrip sample sample_safe
+example : Fol.parseTheory (printTheory sample) = some sample := accepted_theory_roundtrip (theory_roundtrip sample sample_safe)
 
 end Anthem.C15
